@@ -11,6 +11,7 @@ Per (program, simulation) task it records into <workdir>/monitor.d/<prog>__<sim>
   np_draw_before_seed    the numpy global generator was advanced between the start of the task and the
                          first np.random.seed(...) of the task (or no seed call happened at all and the state moved)
   seed_calls             number of np.random.seed calls during the task
+  other_args_mutated     positions of the other simulate() arguments (daylight, weather, parameter dicts, ...) whose pickle changed
   infra_arg_mutated      the pickled `infrastructure` argument of simulate() (the object shared by all programs of a
                          simulation in sequential mode) differs before/after the task
 and once per worker process <workdir>/monitor.d/_setup_<pid>.json: containers changed between import and
@@ -142,6 +143,7 @@ def install(job):
                 json.dump({"pid": os.getpid(), "changed_in_setup": _diff(STATE["base"], s0)}, fh)
         before = snapshot(src)
         infra0 = _infra_digest(args[9] if len(args) > 9 else kwargs.get("infrastructure"))
+        other0 = [_infra_digest(a) if i not in (9, 13) else None for i, a in enumerate(args)]
         std0 = hashlib.sha1(repr(_stdlib_random.getstate()).encode()).hexdigest()
         np0 = _np_state_digest(np)
         task.update(first_seed_state=None, seed_calls=0, active=True)
@@ -154,6 +156,7 @@ def install(job):
             task["active"] = False
             after = snapshot(src)
             infra1 = _infra_digest(args[9] if len(args) > 9 else kwargs.get("infrastructure"))
+            other1 = [_infra_digest(a) if i not in (9, 13) else None for i, a in enumerate(args)]
             std1 = hashlib.sha1(repr(_stdlib_random.getstate()).encode()).hexdigest()
             np1 = _np_state_digest(np)
             if task["seed_calls"] == 0:
@@ -165,7 +168,10 @@ def install(job):
                    "stdlib_used": std0 != std1, "np_draw_before_seed": bool(pre),
                    "seed_calls": task["seed_calls"],
                    "infra_arg_mutated": (infra0 is not None and infra1 is not None and infra0 != infra1),
-                   "infra_digest_ok": infra0 is not None and infra1 is not None}
+                   "infra_digest_ok": infra0 is not None and infra1 is not None,
+                   # every other argument of simulate() (daylight, weather, parameter dicts, seed series, measured-df;
+                   # the lock excluded) is shared by all programs in sequential mode as well
+                   "other_args_mutated": [i for i, (a, b) in enumerate(zip(other0, other1)) if a is not None and b is not None and a != b]}
             with open(os.path.join(STATE["dir"], f"{prog}__{sim}.json"), "w") as fh:
                 json.dump(rec, fh)
 
